@@ -504,14 +504,43 @@ Proof.
   destruct d; [assumption|]. apply in_or_app. now left.
 Qed.
 
+(* a text that contains '=' is not all white space *)
+Lemma space3_bounds : forall a b c, space3 a b c = true -> (128 <= a /\ 128 <= b /\ 128 <= c)%N.
+Proof.
+  intros a b c H. unfold space3 in H.
+  repeat (rewrite ?orb_true_iff, ?andb_true_iff, ?N.eqb_eq, ?N.leb_le in H). lia.
+Qed.
+
+Lemma all_go_space_no_eq : forall n s, (List.length s <= n)%nat -> all_go_space s = true -> ~ In eq_c s.
+Proof.
+  induction n as [|n IH]; intros s Hl H.
+  - destruct s; [intros []|cbn in Hl; lia].
+  - destruct s as [|c r]; [intros []|]. cbn [all_go_space] in H. cbn [List.length] in Hl.
+    destruct (is_go_space c) eqn:Ec.
+    { intros [->|Hin]; [vm_compute in Ec; discriminate|]. revert Hin. apply IH; [lia|assumption]. }
+    destruct r as [|d r1]; [discriminate|]. cbn [List.length] in Hl.
+    destruct ((N_of_ascii c =? 194) && ((N_of_ascii d =? 133) || (N_of_ascii d =? 160)))%N eqn:E2.
+    { intros [->|[->|Hin]].
+      - vm_compute in E2. discriminate.
+      - cbn in E2. rewrite andb_false_r in E2. discriminate.
+      - revert Hin. apply IH; [lia|assumption]. }
+    destruct r1 as [|e r2]; [discriminate|]. cbn [List.length] in Hl.
+    destruct (space3 (N_of_ascii c) (N_of_ascii d) (N_of_ascii e)) eqn:E3; [|discriminate].
+    intros [->|[->|[->|Hin]]].
+    + apply space3_bounds in E3. cbn in E3. lia.
+    + apply space3_bounds in E3. cbn in E3. lia.
+    + apply space3_bounds in E3. cbn in E3. lia.
+    + revert Hin. apply IH; [lia|assumption].
+Qed.
+
 Lemma parse_dn_render : forall d, d <> [] ->
   forallb attr_wf (map snd d) = true -> forallb style_wf d = true ->
   parse_dn (render d) = POk (map (fun sa => [written sa]) d).
 Proof.
   intros d Hne Hw Hs. unfold parse_dn, render. rewrite list_ascii_of_string_of_list_ascii.
   unfold parse_dn_bytes.
-  destruct (forallb is_go_space (render_bytes d)) eqn:E.
-  - rewrite forallb_forall in E. specialize (E _ (eq_in_render d Hne)). discriminate E.
+  destruct (all_go_space (render_bytes d)) eqn:E.
+  - exfalso. exact (all_go_space_no_eq _ _ (le_n _) E (eq_in_render d Hne)).
   - pose proof (finish_render d [] Hne Hw Hs) as F. unfold finish_run in F. cbn [rev app] in F. exact F.
 Qed.
 
